@@ -859,6 +859,28 @@ def log_class(fmt):
     return c
 
 
+def pivot_year(yy):
+    """what a two-digit year written with %y denotes (POSIX / _strptime pivot): 00-68 -> 2000-2068, 69-99 -> 1969-1999"""
+    return 2000 + yy if yy <= 68 else 1900 + yy
+
+
+Y2_RENDERERS = {"r_mysql": 0}      # renderers writing the year with two digits -> offset of the two digits in the rendered stamp
+
+
+def denoted(rend, t):
+    """(the time the rendered stamp DENOTES in its format, the two digits of the year or None).  For %y forms the
+    year is read back from the rendered text with the pivot rule: a year outside 1969-2068 is not representable.
+    None when the denoted date does not exist (Feb 29 moved to a non-leap year)."""
+    off = Y2_RENDERERS.get(rend.__name__)
+    if off is None:
+        return t, None
+    yy = int(rend(t)[off:off + 2])
+    try:
+        return t.replace(year=pivot_year(yy)), yy
+    except ValueError:
+        return None, yy
+
+
 def fmt_has_year(fmt):
     return all(r[1] for r in FORMATS[fmt][1])
 
@@ -881,10 +903,10 @@ def gen_threshold(rng):
     return datetime.datetime(y, mo, d, rng.choice([0, 0, 12, 23]), rng.choice([0, 30, 59]), rng.choice([0, 0, 59]), us)
 
 
-def gen_after_case(rng, fmt=None):
+def gen_after_case(rng, fmt=None, thr=None, far=False):
     fmt = fmt or rng.choice(list(FORMATS))
     rends = FORMATS[fmt][1]
-    thr = gen_threshold(rng)
+    thr = thr or gen_threshold(rng)
     n = rng.choice([0, 1, 1, 2, 3, 5, 8, 12])
     lines = []
     cur = thr + datetime.timedelta(days=rng.choice([-40, -20, -3, -1, -1, 0, 0, 0, 1, 10]), seconds=rng.randint(-5000, 5000))
@@ -892,7 +914,7 @@ def gen_after_case(rng, fmt=None):
     for _ in range(n):
         if rng.random() < 0.62:
             r = rng.random()
-            if chrono:
+            if chrono and not far:
                 cur = cur + datetime.timedelta(seconds=rng.choice([0, 1, 60, 3600, 86400, 86400 * 3, 86400 * 9]))
                 t = cur
             elif r < 0.2:
@@ -901,6 +923,8 @@ def gen_after_case(rng, fmt=None):
                 t = thr + datetime.timedelta(seconds=rng.choice([-1, 1]))
             elif r < 0.45:
                 t = thr + datetime.timedelta(microseconds=rng.choice([-1, 1, -500000, 500000]))
+            elif far and r < 0.7:   # years on both sides of the %y pivot window
+                t = thr.replace(year=rng.choice([1967, 1968, 1969, 1970, 1999, 2000, 2001, 2067, 2068, 2069, 2070]), day=min(thr.day, 28))
             elif r < 0.85:
                 t = thr + datetime.timedelta(seconds=rng.randint(-20 * 86400, 34 * 86400))
             else:
@@ -910,17 +934,39 @@ def gen_after_case(rng, fmt=None):
             rend, hy, hd, hm = rng.choice(rends)
             if not hm:
                 t = t.replace(microsecond=0)
-            text = rng.choice(PREFIX) + rend(t) + " " + rng.choice(MSG)
+            stamp_text = rend(t)
+            t, yy = denoted(rend, t)         # what the text denotes: for %y forms the pivoted year
+            if t is None:
+                lines.append({"text": rng.choice(MSG), "t": None})
+                continue
+            text = rng.choice(PREFIX) + stamp_text + " " + rng.choice(MSG)
             if rng.random() < 0.05:
                 t2 = t + datetime.timedelta(days=rng.choice([-50, 50]))
                 text += " (was " + rend(t2) + ")"
             lines.append({"text": text, "t": [t.year, t.month, t.day, t.hour, t.minute, t.second, t.microsecond],
-                          "hy": hy, "hd": hd})
+                          "hy": hy, "hd": hd, "yy": yy})
         else:
             lines.append({"text": rng.choice(MSG), "t": None})
     s = rng.choice([None, None, None, None, None, None, "error", "", ["error"], ["error", "failed"], "kernel", [], ["r", "e"], "o", " "])
     return {"op": "after", "fmt": fmt, "thr": [thr.year, thr.month, thr.day, thr.hour, thr.minute, thr.second, thr.microsecond],
             "s": s, "lines": lines}
+
+
+def normalise_after(case):
+    """records written before two-digit years were tracked (no "yy" key): read the two digits back from the text of
+    a %y%m%d stamp and let the line denote the pivoted year"""
+    import re
+    if case.get("fmt") != "mariadb":
+        return case
+    for l in case["lines"]:
+        if l.get("t") and "yy" not in l:
+            m = re.search(r"(?<!\d)(\d{2})(\d{2})(\d{2}) \d{2}:\d{2}:\d{2}|\d{4}-\d{2}-\d{2} \d{2}:\d{2}:\d{2}", l["text"])
+            if m and m.group(1) is not None:
+                l["yy"] = int(m.group(1))
+                l["t"] = [pivot_year(l["yy"])] + list(l["t"][1:])
+            else:
+                l["yy"] = None
+    return case
 
 
 def after_impl(case):
@@ -957,7 +1003,8 @@ def after_line(case):
         if t is None:
             fs.append("-")
         else:
-            y = str(t[0]) if l["hy"] else "N"
+            # a two-digit year goes to the driver AS WRITTEN; the model applies its own pivot
+            y = ("y%d" % l["yy"]) if l.get("yy") is not None else str(t[0]) if l["hy"] else "N"
             mo, d = (t[1], t[2]) if l["hd"] else (1, 1)
             fs.append("%s,%d,%d,%d" % (y, mo, d, tod(t)))
     return "after\t" + "\t".join(fs)
@@ -1048,6 +1095,7 @@ def eval_case(case):
         out = get_impl(case)
         return out, get_canon_impl(case, out), get_lines(case), (get_oracle(case, out), None)
     if op == "after":
+        case = normalise_after(case)
         out = after_impl(case)
         ci = out if isinstance(out, str) else "OK\t" + "\t".join(fields_list(out))
         return out, [ci], [after_line(case)], after_oracle(case, out)
@@ -1222,9 +1270,18 @@ def run(chk):
 
     # ---- 7. get_after
     def after_tag(case, out):
-        return ["after:fmt=%s" % case["fmt"], "after:result=%s" % (out if isinstance(out, str) else "n%d" % min(len(out), 3)),
+        yys = [l["yy"] for l in case["lines"] if l.get("t") and l.get("yy") is not None]
+        extra = ["after:two-digit-year=%s" % ("00-68" if yy <= 68 else "69-99") for yy in yys[:2]]
+        extra += ["after:two-digit-year=boundary-%d" % yy for yy in yys if yy in (68, 69)][:1]
+        return extra + ["after:fmt=%s" % case["fmt"], "after:result=%s" % (out if isinstance(out, str) else "n%d" % min(len(out), 3)),
                 "after:oracle=%s" % ("applied" if after_oracle_applicable(case) else "n/a")]
     cases = [gen_after_case(rng) for _ in range(5000 * mult)]
+    # two-digit years: thresholds and lines on both sides of the %y pivot (1969-2068)
+    for _ in range(700 * mult):
+        y = rng.choice([1968, 1969, 1969, 1970, 1998, 1999, 2000, 2001, 2067, 2068, 2068, 2069])
+        mo, d = rng.choice([(1, 1), (1, 2), (12, 31), (12, 30), (6, 15), (2, 28), (3, 1)])
+        thr = datetime.datetime(y, mo, d, rng.choice([0, 12, 23]), rng.choice([0, 59]), rng.choice([0, 59]))
+        cases.append(gen_after_case(rng, fmt="mariadb", thr=thr, far=rng.random() < 0.5))
     for c in cases:
         chk.case(("after", json.dumps(c, sort_keys=True)), any(l["t"] for l in c["lines"]))
     run_stream(chk, "get_after", cases, after_tag)
